@@ -673,8 +673,14 @@ class Binary(Expression):
                 if long is None:
                     long = l_long
             if self.right.small_constant:
+                value = int(self.right.value)
+                if self.operator in (Opcode.LSH, Opcode.RSH, Opcode.ARSH) \
+                        and not 0 <= value < (64 if long else 32):
+                    raise AssembleError(
+                        f"shift by {value} in a {64 if long else 32} bit "
+                        "operation would not load")
                 self.ebpf.append(self.operator + Opcode.LONG * long,
-                                 dst, 0, 0, int(self.right.value))
+                                 dst, 0, 0, value)
             else:
                 with self.right.calculate(None, long) as (src, r_long):
                     self.ebpf.append(
